@@ -226,6 +226,12 @@ func OracleC08(seq, fast *Outcome) []Violation {
 			vs = append(vs, v(P, "fast-item-differs", "%s names item %d (%q), %s names item %d (%q)", fast.Cfg.Workflow, fast.NamedItem, fast.Err, seq.Cfg.Workflow, seq.NamedItem, seq.Err))
 		}
 	}
+	if k := fast.Cfg.Fault.Kind; k != "" && k != "none" {
+		// a stream the source did not deliver completely: only the comparison
+		// with the sequential workflow applies (what a failing source must lead
+		// to in its own right is C09's subject)
+		return vs
+	}
 	// "in particular the periodic variant judges exactly the first twelve"
 	for _, x := range checkDecision(P, fast, wi.Items) {
 		x.Clause = "fast-vs-rule:" + x.Clause
